@@ -256,7 +256,7 @@ func arrangements(n, k int, f func([]int)) {
 func partB(r *core.Result) {
 	maxDistinct, maxLen3, k4len, arrK := 17, 6, 0, 5
 	if core.Thorough() {
-		maxDistinct, maxLen3, k4len, arrK = 40, 9, 6, 6
+		maxDistinct, maxLen3, k4len, arrK = 40, 8, 5, 6
 	}
 	t0 := time.Now()
 	var cases []merkleCase
@@ -299,6 +299,9 @@ func partB(r *core.Result) {
 	wg.Wait()
 	for _, res := range results {
 		mergeCase(r, res)
+		if n := len(res.c.Leaves); (res.c.Family == "distinct" && n == 5) || (res.c.Family == "alphabet3" && n == 4 && listName(res.c.Leaves) == "0 1 0 2") {
+			r.Sample(map[string]interface{}{"merkle_list": res.c, "root": res.root.Hex(), "outcomes": res.outcomes, "counters": res.counters})
+		}
 	}
 	r.Extra["part_b_wall_s"] = time.Since(t0).Seconds()
 	r.Extra["merkle_bounds"] = map[string]int{"distinct_leaves_max_len": maxDistinct, "alphabet3_max_len": maxLen3, "alphabet4_max_len": k4len, "arrangements_of": arrK}
